@@ -49,7 +49,28 @@ pub fn from_repr_inner(ast: &DeriveInput) -> syn::Result<TokenStream> {
     let mut has_additional_data = false;
     let mut prev_const_var_ident = None;
     for variant in variants {
-        if variant.get_variant_properties()?.disabled.is_some() {
+        let disabled = variant.get_variant_properties()?.disabled.is_some();
+
+        let const_var_str = format!("{}_DISCRIMINANT", variant.ident);
+        let const_var_ident = format_ident!("{}", const_var_str);
+
+        let const_val_expr = match &variant.discriminant {
+            Some((_, expr)) => quote! { #expr },
+            None => match &prev_const_var_ident {
+                Some(prev) => quote! { #prev + 1 },
+                None => quote! { 0 },
+            },
+        };
+
+        // Disabled variants still occupy a discriminant, so their constant is always
+        // defined; they just don't get a match arm.
+        constant_defs.push(quote! {
+            #[allow(non_upper_case_globals, dead_code)]
+            const #const_var_ident: #discriminant_type = #const_val_expr;
+        });
+        prev_const_var_ident = Some(const_var_ident.clone());
+
+        if disabled {
             continue;
         }
 
@@ -72,24 +93,7 @@ pub fn from_repr_inner(ast: &DeriveInput) -> syn::Result<TokenStream> {
             }
         };
 
-        let const_var_str = format!("{}_DISCRIMINANT", variant.ident);
-        let const_var_ident = format_ident!("{}", const_var_str);
-
-        let const_val_expr = match &variant.discriminant {
-            Some((_, expr)) => quote! { #expr },
-            None => match &prev_const_var_ident {
-                Some(prev) => quote! { #prev + 1 },
-                None => quote! { 0 },
-            },
-        };
-
-        constant_defs.push(quote! {
-            #[allow(non_upper_case_globals)]
-            const #const_var_ident: #discriminant_type = #const_val_expr;
-        });
         arms.push(quote! {v if v == #const_var_ident => ::core::option::Option::Some(#name::#ident #params)});
-
-        prev_const_var_ident = Some(const_var_ident);
     }
 
     arms.push(quote! { _ => ::core::option::Option::None });
